@@ -118,10 +118,6 @@ structure Acc where
 
 def addFeat (fs : List String) (f : String) : List String := if fs.contains f then fs else fs ++ [f]
 
-def expectedView (r : Replica) (e : Ev) : View × Nat :=
-  match e with
-  | .offline => if r.up then (r.view, r.applied) else (.pins r.offlineView, r.offlineIdx)
-  | _ => (r.view, r.applied)
 
 def showRes : Res → String
   | .ok => "ok" | .noop => "noop" | .err => "err" | .crash => "crash"
@@ -142,7 +138,7 @@ def oneEvent (ops : List Op) (a : Acc) (i : Nat) (evs : List Ev) (o : RawObs) (k
       (s', out, shadowStep sh s s' i e out.res, b', e))
     (a.sys, { res := .noop }, a.shadow, a.beyond, Ev.apply)
   let r' := (sys'[i]?).getD {}
-  let (ev, ea) := expectedView r' lastEv
+  let (ev, ea) := observe r' lastEv
   let agree := out.res == o.res && ea == o.applied && canonView ev == canonView o.view &&
                out.calls.map canonCall == o.calls.map canonCall
   let obs : Obs := { rep := i, ev := lastEv, res := o.res, applied := o.applied, view := o.view, calls := o.calls }
